@@ -16,7 +16,7 @@ for s in "${seeds[@]}"; do
   patch=/verif/seeded/$s/patch.diff
   [ -f $patch ] || { echo "$s: no patch.diff"; continue; }
   if ! git -C $WT apply --check $patch 2>/dev/null; then
-    if ! git -C $WT apply -3 $patch >/dev/null 2>&1; then echo "$s: SKIP (patch does not apply to HEAD)"; git -C $WT checkout -q -- . ; continue; fi
+    if ! git -C $WT apply -3 $patch >/dev/null 2>&1; then echo "$s: SKIP (patch does not apply to HEAD)"; git -C $WT reset -q --hard; git -C $WT clean -fdq -e target; continue; fi
   else
     git -C $WT apply $patch
   fi
